@@ -73,7 +73,7 @@ def _cases(draw, tier):
     for op in ops:
         m.apply(op)
     reads = draw(S.read_ranges(m, 4))
-    return {"cfg": cfg, "ops": ops, "path": draw(st.sampled_from(["py", "c"])), "reads": reads}
+    return S.draw_call_forms(draw, {"cfg": cfg, "ops": ops, "path": draw(st.sampled_from(["py", "c"])), "reads": reads})
 
 
 def strategy(tier):
